@@ -41,6 +41,16 @@ def gen_cases(tier):
         for v in (1, 2, 9, 10, 26, 27):
             for lvl in ('L', 'H'):
                 yield ('multi', v, lvl)
+    # symbols that reach the stream writer through other routes: Structured Append symbols (symbol_count), several segments with a
+    # requested version, ECI headers with every spelling of the encoding - judged against the segments a reader finds in them
+    for k in (1, 2, 3, 4):
+        for lvl in ('L', 'M', 'Q', 'H'):
+            for mode in ('byte', 'numeric', 'alphanumeric'):
+                yield ('seqs', k, lvl, mode)
+    for v in ('M2', 'M3', 'M4', 1, 2):
+        yield ('reqseg', v)
+    for enc in ('iso-8859-1', 'ISO-8859-1', 'latin1', 'utf-8', 'UTF8', 'iso-8859-15'):
+        yield ('ecialias', enc)
 
 
 def lengths(mode, v, lvl):
@@ -88,6 +98,66 @@ def judge(qr, parts, v, lvl, acc, case, sa=None):
     acc.violation(fam, 'bits after the last segment of %s-%s (used %d of %d bits): got %s..., ISO prescribes %s...'
                   % (v, lvl, ub, cap, ''.join(map(str, got[ub:ub + 40])), ''.join(map(str, exp[ub:ub + 40]))), case,
                   obs=''.join(map(str, got[ub:])), exp=''.join(map(str, exp[ub:])), known=known)
+
+
+def judge_as_read(qr, acc, case):
+    """terminator and padding relative to the segments an ISO reader finds in the symbol (the symbol may come from any route)"""
+    rep = C.read(qr)
+    bad = [p for p in rep.problems if C.classify_problem(p) == 'stream']
+    if bad or rep.segments is None:
+        acc.eval(case, nontrivial=True, outcome='garbled', state=('as-read', 'garbled'))
+        acc.violation('stream-not-terminated', '%s symbol: %s - the data does not end in a complete segment followed by terminator and padding'
+                      % (qr.designator, (bad or rep.problems or ['no segments'])[0][:120]), case)
+        return
+    parts = [(sg.mode, sg.data, sg.eci) for sg in rep.segments]
+    acc.count('as_read')
+    judge(qr, parts, rep.version, rep.level, acc, case, sa=rep.sa)
+
+
+def seqs(k, lvl, mode, acc):
+    top = {'byte': 40, 'numeric': 90, 'alphanumeric': 60}[mode] * k
+    for n in range(k, top + 1):
+        content = C.content_of(mode, n, 0)
+        for boost in (False, True):
+            try:
+                seq = segno.make_sequence(content, symbol_count=k, error=lvl, boost_error=boost, mode=mode)
+            except C.REFUSALS:
+                continue
+            for i, qr in enumerate(seq):
+                judge_as_read(qr, acc, ('seq1', k, lvl, mode, n, boost, i))
+
+
+def reqseg(v, acc):
+    pieces = ['1', 'A', '22', 'BC', '333', 'D', '4', 'EF', '55', 'G', '666', 'HI'] + (['a', '7', 'bc', 'K'] if T.mode_supported('byte', v) else [])
+    for lvl in T.levels_of(v):
+        for k in range(1, len(pieces) + 1):
+            for start in (0, 1):
+                content = pieces[start:start + k]
+                if not content:
+                    continue
+                for kw in ({'version': v}, {'version': v, 'boost_error': False}, {'micro': None}):
+                    kw = dict(kw)
+                    if lvl is not None:
+                        kw['error'] = lvl
+                    try:
+                        qr = segno.make(content, **kw)
+                    except C.REFUSALS:
+                        continue
+                    judge_as_read(qr, acc, ('reqseg1', v, lvl, k, start, sorted(kw)))
+
+
+def ecialias(enc, acc):
+    for v in (1, 2, 3):
+        for lvl in ('L', 'M', 'Q', 'H'):
+            mx = C.max_count('byte', v, lvl)
+            for n in range(max(1, mx - 3), mx + 2):
+                content = C.content_of('byte', n, 1).replace('\xe9', 'e')
+                for kw in ({'error': lvl}, {'error': lvl, 'boost_error': False}, {'error': lvl, 'version': v}, {}):
+                    try:
+                        qr = segno.make(content, encoding=enc, eci=True, **kw)
+                    except C.REFUSALS:
+                        continue
+                    judge_as_read(qr, acc, ('ecialias1', enc, v, lvl, n, sorted(kw)))
 
 
 def one(v, lvl, mode, n, variant, acc):
@@ -153,6 +223,15 @@ def run_case(case, acc):
                         multimode(v, lvl, pair, k1, mid, k2, acc)
     elif kind == 'multimode1':
         multimode(case[1], case[2], tuple(case[3]), case[4], case[5], case[6], acc)
+    elif kind == 'seqs':
+        seqs(case[1], case[2], case[3], acc)
+    elif kind == 'reqseg':
+        reqseg(case[1], acc)
+    elif kind == 'ecialias':
+        ecialias(case[1], acc)
+    elif kind in ('seq1', 'reqseg1', 'ecialias1'):
+        # replay: the whole family member is cheap
+        {'seq1': lambda: seqs(case[1], case[2], case[3], acc), 'reqseg1': lambda: reqseg(case[1], acc), 'ecialias1': lambda: ecialias(case[1], acc)}[kind]()
     elif kind == 'multi1':
         multi(case[1], case[2], case[3], acc)
     else:
